@@ -137,10 +137,15 @@ Definition c10_required_ops : list string :=
    "isel_scalar"; "isel_list"; "isel_slice"; "isel_dict"; "sel"; "loc"; "getitem"; "getitem_slice"; "head"; "thin";
    "mean"; "sum"; "max"; "std"; "reduce"; "quantile"; "cumsum"; "cumprod"; "diff"; "shift";
    "transpose"; "T"; "rename"; "rename_dim"; "assign_coords"; "drop_vars"; "expand_dims"; "sortby"; "concat";
-   "copy_deep"; "copy_shallow"; "copy_deep_data"; "copy_shallow_data"; "pipe"; "compute"].
+   "copy_deep"; "copy_shallow"; "copy_deep_data"; "copy_shallow_data"; "pipe"; "compute";
+   "isel_drop"; "sel_drop"; "squeeze"; "squeeze_drop"; "squeeze_all_drop"; "isel_missing_dims"; "reset_coords_drop";
+   "mean_keep_attrs"; "sum_skipna"; "tail"; "roll"; "swap_dims"; "argmax"; "reindex"; "weighted_mean"; "groupby_mean";
+   "drop_isel"; "assign_attrs"].
 Definition c10_known_plain_ops : list string :=
   ["np_sin"; "np_add"; "np_maximum"; "apply_ufunc"; "where"; "where_other"; "xr_where"; "clip"; "fillna"; "astype";
-   "isnull"; "rolling_mean"].
+   "isnull"; "rolling_mean"; "idxmax"; "dot"; "coarsen_mean"].
+(* built by the class constructor without a grid: a UxDataArray whose uxgrid is None (known finding) *)
+Definition c10_known_gridless_ops : list string := ["broadcast_like"].
 Close Scope string_scope.
 
 Fixpoint c10_lookup (name : string) (t : list (string * c10_hook)) : option c10_hook :=
